@@ -2213,6 +2213,12 @@ int cif_value_init_numb(cif_value_tp *n, double val, double su, int scale, int m
         if (locale != NULL) {
             char *digit_buf = to_digits(val, scale);
 
+            if ((digit_buf != NULL) && (*digit_buf == '\0')) {
+                /* the value rounds to zero at the specified scale, but it nevertheless has one (zero) digit */
+                free(digit_buf);
+                digit_buf = strdup("0");
+            }
+
             if (digit_buf == NULL) {
                 SET_RESULT(CIF_MEMORY_ERROR);
             } else {
